@@ -137,6 +137,9 @@ func (c *Ctx) finish(level, explanation string, assumptions []string) int {
 	var violated []Obligation
 	seenKnown := map[string]bool{}
 	for _, o := range c.Obls {
+		if os.Getenv("GGV_PRINT_ALL") != "" {
+			fmt.Printf("OBL %s %s: %s [%s] %s\n", o.Status, o.Rule, o.Construct, o.Where, short(o.Detail))
+		}
 		switch o.Status {
 		case "discharged":
 			discharged++
